@@ -8,6 +8,9 @@ package main
 import (
 	"encoding/json"
 	"fmt"
+	"strings"
+
+	tally "github.com/uber-go/tally/v4"
 )
 
 // c07Exec runs a registry case. complete: extend the schedule until every
@@ -181,6 +184,21 @@ func init() {
 			}
 		}
 		if ctx.Replay != nil {
+			var ip struct {
+				Inert bool `json:"inert_stream"`
+			}
+			if json.Unmarshal(ctx.Replay, &ip) == nil && ip.Inert {
+				var ic c07InertCase
+				if err := json.Unmarshal(ctx.Replay, &ic); err != nil {
+					fatal(err)
+				}
+				f := c07Inert(&ic)
+				ctx.Case(ic, "", "derived-from-closed-scope", "")
+				if f != "" {
+					ctx.Fail("scopes_derived_from_a_closed_scope_are_inert", f, ic, nil)
+				}
+				return
+			}
 			var c regCase
 			if err := json.Unmarshal(ctx.Replay, &c); err != nil {
 				fatal(err)
@@ -211,5 +229,129 @@ func init() {
 			one(&c)
 		}
 		ctx.Res.Schedules = nsched
+		// scopes derived from a closed scope are inert; closing twice is harmless (sequential,
+		// direct predicate only)
+		ni := ctx.N(150, 4000)
+		for k := 0; k < ni; k++ {
+			sc := c07InertGen(ctx.R)
+			f := c07Inert(&sc)
+			ctx.Case(sc, "", "derived-from-closed-scope", "")
+			if f != "" {
+				ctx.Fail("scopes_derived_from_a_closed_scope_are_inert", f, sc, nil)
+			}
+		}
 	}
+}
+
+// c07InertCase: a parent (SubScope or Tagged of the root), children derived from it before its
+// Close (some of them by the same derivation that is repeated afterwards), and derivations from
+// the closed parent afterwards.
+type c07InertCase struct {
+	Inert      bool  `json:"inert_stream"`
+	Cached     bool  `json:"cached"`
+	San        bool  `json:"san"`
+	ParentTag  bool  `json:"parent_tagged"`
+	Before     []int `json:"before"` // child derivations made before the Close (index into the derivation pool)
+	After      []int `json:"after"`  // child derivations made after it
+	CloseTwice bool  `json:"close_twice"`
+	PassFirst  bool  `json:"pass_between"`
+}
+
+func c07InertGen(r *Rng) c07InertCase {
+	c := c07InertCase{Inert: true, Cached: r.Bool(), San: r.Bool(), ParentTag: r.Bool(), CloseTwice: r.Bool(), PassFirst: r.Bool()}
+	for i, n := 0, r.Range(0, 3); i < n; i++ {
+		c.Before = append(c.Before, r.Intn(4))
+	}
+	for i, n := 0, r.Range(1, 4); i < n; i++ {
+		if len(c.Before) > 0 && r.Chance(60) {
+			c.After = append(c.After, c.Before[r.Intn(len(c.Before))]) // the very same derivation again
+		} else {
+			c.After = append(c.After, r.Intn(4))
+		}
+	}
+	return c
+}
+
+func c07Derive(s tally.Scope, d int) tally.Scope {
+	switch d {
+	case 0:
+		return s.SubScope("c")
+	case 1:
+		return s.Tagged(map[string]string{"t": "v"})
+	case 2:
+		return s.SubScope("d").Tagged(map[string]string{"u": "w-x"})
+	default:
+		return s.Tagged(map[string]string{"t": "v", "z": "q"})
+	}
+}
+
+func c07Inert(c *c07InertCase) (fail string) {
+	defer func() {
+		if p := recover(); p != nil {
+			fail = fmt.Sprintf("panic: %v", p)
+		}
+	}()
+	log := &Log{}
+	opts := tally.ScopeOptions{OmitCardinalityMetrics: true}
+	if c.San {
+		opts.SanitizeOptions = regSanOpts
+	}
+	if c.Cached {
+		opts.CachedReporter = &RecCached{L: log, Caps: caps{true, true}}
+	} else {
+		opts.Reporter = &RecReporter{L: log, Caps: caps{true, true}}
+	}
+	root, closer := tally.VerifNewRootScope(opts, 0, 2)
+	defer closer.Close()
+	var parent tally.Scope
+	if c.ParentTag {
+		parent = root.Tagged(map[string]string{"p": "1"})
+	} else {
+		parent = root.SubScope("p")
+	}
+	for i, d := range c.Before {
+		c07Derive(parent, d).Counter(fmt.Sprintf("before%d", i)).Inc(1)
+	}
+	parent.Counter("own").Inc(1)
+	parent.(interface{ Close() error }).Close()
+	if c.CloseTwice {
+		if err := parent.(interface{ Close() error }).Close(); err != nil {
+			return fmt.Sprintf("second Close of a subscope returned %v", err)
+		}
+	}
+	if c.PassFirst {
+		tally.VerifReportOnce(root)
+	}
+	for i, d := range c.After {
+		c07Derive(parent, d).Counter(fmt.Sprintf("after%d", i)).Inc(1)
+	}
+	tally.VerifReportOnce(root)
+	tally.VerifReportOnce(root)
+	got := map[string]int64{}
+	alloc := map[int64]string{}
+	for _, e := range log.Snapshot() {
+		switch e.K {
+		case 1:
+			got[e.S[0]] += e.I[0]
+		case 11:
+			alloc[e.I[0]] = e.S[0]
+		case 21:
+			got[alloc[e.I[0]]] += e.I[1]
+		}
+	}
+	for name, v := range got {
+		if strings.Contains(name, "after") {
+			return fmt.Sprintf("%q = %d was delivered although it was recorded through a scope derived from a closed scope", name, v)
+		}
+	}
+	nb := int64(0)
+	for name, v := range got {
+		if strings.Contains(name, "before") || strings.HasSuffix(name, "own") {
+			nb += v
+		}
+	}
+	if nb != int64(len(c.Before))+1 {
+		return fmt.Sprintf("%d increments were recorded before the Close (on the scope and its children), %d delivered", len(c.Before)+1, nb)
+	}
+	return ""
 }
